@@ -122,7 +122,7 @@ func checkC03(P *Prog, r *Result) {
 			r.undecided("C03/option-effective", c, P.pos(fn.Pos()), "cannot identify the returned option function")
 		}
 	}
-	r.floor("C03/option-effective", 10)
+	r.floor("C03/option-effective", 5)
 
 	// ---- opts-applied + default-coercer ----
 	nCtor := 0
@@ -204,7 +204,7 @@ func checkC03(P *Prog, r *Result) {
 		// default coercer
 		P.checkDefaultCoercer(r, fn, retv)
 	}
-	r.floor("C03/opts-applied", 9)
+	r.floor("C03/opts-applied", 5)
 	// the Time constructor is a package-level func value
 	_ = nCtor
 
